@@ -60,6 +60,7 @@ func cmdRun(args []string) int {
 	budget := fs.Float64("budget", 0, "wall budget in seconds (default quick 60, thorough 1500)")
 	workers := fs.Int("workers", 0, "parallel independent runs (default: number of CPUs)")
 	runs := fs.Int64("runs", 0, "execute exactly N histories instead of using the time budget")
+	from := fs.Int64("from", 0, "first run index (debugging aid)")
 	loghash := fs.Bool("loghash", false, "print a hash of the complete event log")
 	norace := fs.Bool("no-race", false, "skip the real-thread -race stress sub-run")
 	racebin := fs.String("race-bin", "", "path of the -race stress binary (default: pricesim-race next to this binary)")
@@ -93,7 +94,7 @@ func cmdRun(args []string) int {
 		}
 	}
 	return sim.RunTier(sim.RunConfig{Tier: *tier, Seed: seed, Evidence: *evidence, Replays: *replays,
-		Budget: time.Duration(*budget * float64(time.Second)), Workers: *workers, MaxRuns: *runs, LogHash: *loghash,
+		Budget: time.Duration(*budget * float64(time.Second)), Workers: *workers, MaxRuns: *runs, From: *from, LogHash: *loghash,
 		NoRace: *norace, RaceBin: *racebin})
 }
 
